@@ -184,13 +184,23 @@ class KeyedV(SymObj):
         raise OutOfSubset(f"keyed.{name}")
 
 
+class MatchV(SymObj):
+    """re.Match or None: has a truth value, is not a number (it cannot be summed with booleans)."""
+
+    def __init__(self, found):
+        self.found = found
+
+    def py_truth(self, I):
+        return self.found
+
+
 class RegexV(SymObj):
     def __init__(self, pattern):
         self.pattern = pattern
 
     def py_getattr(self, I, name):
         if name == "search":
-            return Builtin("search", lambda I, a: ZV(AT.search(self.pattern, a.name), "bool"))
+            return Builtin("search", lambda I, a: MatchV(AT.search(self.pattern, a.name)))
         raise OutOfSubset(f"regex.{name}")
 
 
